@@ -351,11 +351,12 @@ fn check_pair(r: &mut Report, needle: &[u8], p: Option<Pair>, what: &str) {
 fn pairs(args: &Args, thorough: bool, total: &mut Report, bounds: &mut Map<String, Value>) {
     let _ = args;
     let maxl = if thorough { 10 } else { 8 };
-    // (1) all needles over <=3 letters x all weak orders of ranks
-    for nl in 1..=3usize {
-        let letters: Vec<u8> = b"abc"[..nl].to_vec();
+    // (1) all needles over <=3 (thorough: 4) letters x all weak orders of ranks
+    let maxletters = if thorough { 4 } else { 3 };
+    for nl in 1..=maxletters {
+        let letters: Vec<u8> = b"abcd"[..nl].to_vec();
         let orders = enumr::weak_orders(nl);
-        let needles = AllStrings { letters: letters.clone(), minlen: 0, maxlen: maxl }.all();
+        let needles = AllStrings { letters: letters.clone(), minlen: 0, maxlen: if nl == 4 { 9 } else { maxl } }.all();
         let rep = par::run_chunks(needles.len() as u64, 64, |lo, hi, r| {
             for ni in lo..hi {
                 let needle = &needles[ni as usize];
@@ -400,7 +401,7 @@ fn pairs(args: &Args, thorough: bool, total: &mut Report, bounds: &mut Map<Strin
     }
     // (2) structured long needles x named rankers
     let lens: Vec<usize> = if thorough {
-        vec![2, 3, 100, 253, 254, 255, 256, 257, 258, 300, 600]
+        (2..=300).chain([511, 512, 513, 600, 1000]).collect()
     } else {
         vec![2, 3, 254, 255, 256, 257, 300, 600]
     };
@@ -442,7 +443,9 @@ fn pairs(args: &Args, thorough: bool, total: &mut Report, bounds: &mut Map<Strin
     });
     total.merge(rep);
     // (3) with_indices: every (i1, i2) in 0..=255 squared
-    let wl: Vec<usize> = vec![0, 1, 2, 3, 5, 254, 255, 256, 257, 600];
+    // every needle length up to 258 (thorough: 600), so that every
+    // (length, index1, index2) combination around the u8 limits occurs
+    let wl: Vec<usize> = if thorough { (0..=600).collect() } else { (0..=258).chain([300, 600]).collect() };
     let rep = par::run_items(&wl, |_, &l, r| {
         let needle: Vec<u8> = (0..l).map(|i| (i % 256) as u8).collect();
         for i1 in 0..=255u8 {
@@ -489,7 +492,7 @@ fn pairs(args: &Args, thorough: bool, total: &mut Report, bounds: &mut Map<Strin
     });
     total.merge(rep);
     total.sample(0, || json!({"needle": "\"abcab\"", "ranks": "every weak order on {a,b,c}", "check": "None iff len<2; else distinct offsets < len and <= 254; finders echo the pair"}));
-    bounds.insert("pairs".into(), json!({"weak_order_needles": {"letters": "a | ab | abc", "max_len": maxl}, "structured_lengths": lens, "rankers": rankers, "with_indices": {"needle_lengths": wl, "indices": "0..=255 squared"}}));
+    bounds.insert("pairs".into(), json!({"weak_order_needles": {"letters": if thorough { "a | ab | abc | abcd (len <= 9)" } else { "a | ab | abc" }, "max_len": maxl}, "structured_lengths": lens, "rankers": rankers, "with_indices": {"needle_lengths": format!("every length {}..={} (+300, 600)", wl[0], if thorough { 600 } else { 258 }), "indices": "0..=255 squared"}}));
 }
 
 fn echo_pair(r: &mut Report, needle: &[u8], p: Pair) {
@@ -559,7 +562,7 @@ fn echo_pair(r: &mut Report, needle: &[u8], p: Pair) {
 /// C18: is_equal / is_prefix / is_suffix / is_equal_raw.
 fn equal(args: &Args, thorough: bool, total: &mut Report, bounds: &mut Map<String, Value>) {
     let _ = args;
-    let maxl = if thorough { 8 } else { 7 };
+    let maxl = if thorough { 14 } else { 10 };
     // (1) all pairs over {a,b} up to maxl
     let strs = AllStrings { letters: b"ab".to_vec(), minlen: 0, maxlen: maxl }.all();
     let rep = par::run_chunks(strs.len() as u64, 8, |lo, hi, r| {
@@ -577,7 +580,7 @@ fn equal(args: &Args, thorough: bool, total: &mut Report, bounds: &mut Map<Strin
     total.merge(rep);
     // (2) equal content and every single-byte difference, len 0..=64, all 8x8
     // relative alignments, and both operands flush against guard pages
-    let maxlen = if thorough { 80 } else { 64 };
+    let maxlen = if thorough { 300 } else { 64 };
     let lens: Vec<usize> = (0..=maxlen).collect();
     let rep = par::run_items(&lens, |_, &l, r| {
         let mut ax = Arena::plain(1);
@@ -629,6 +632,57 @@ fn equal(args: &Args, thorough: bool, total: &mut Report, bounds: &mut Map<Strin
         }
     });
     total.merge(rep);
+    // (2b) all pairs over {a,b,c} (and thorough: {a,b,c,d}) - two differing
+    // positions can carry equal or different XOR masks
+    for (letters, ml) in [(b"abc".to_vec(), if thorough { 8 } else { 6 }), (b"\x00\x01\x80\xff".to_vec(), if thorough { 6 } else { 5 })] {
+        let strs = AllStrings { letters, minlen: 0, maxlen: ml }.all();
+        let rep = par::run_chunks(strs.len() as u64, 8, |lo, hi, r| {
+            let mut ax = Arena::plain(1);
+            let mut ay = Arena::plain(1);
+            for xi in lo..hi {
+                let x = &strs[xi as usize];
+                for y in &strs {
+                    let px = ax.place_fill(64 + (xi as usize % 8), x, b'a', b'a', 16);
+                    let py = ay.place_fill(64 + (y.len() % 8), y, b'a', b'a', 16);
+                    check_equal(r, px, py, "plain");
+                }
+            }
+        });
+        total.merge(rep);
+    }
+    // (2c) every PAIR of differing positions (same and different masks) at
+    // every length, operands at two relative alignments and flush against
+    // the guard page
+    let maxlen2 = if thorough { 160 } else { 64 };
+    let lens2: Vec<usize> = (2..=maxlen2).collect();
+    let rep = par::run_items(&lens2, |_, &l, r| {
+        let mut ax = Arena::plain(1);
+        let mut ay = Arena::plain(1);
+        let mut gx = Arena::guarded(1);
+        let mut gy = Arena::guarded(1);
+        let base: Vec<u8> = (0..l).map(|i| b'a' + (i % 26) as u8).collect();
+        for d1 in 0..l {
+            for d2 in d1 + 1..l {
+                for (m1, m2) in [(2u8, 2u8), (2, 1), (0x80, 0x80), (0xff, 0x01)] {
+                    let mut y = base.clone();
+                    y[d1] ^= m1;
+                    y[d2] ^= m2;
+                    for (a1, a2) in [(0, 0), (1, 3)] {
+                        let px = ax.place_fill(64 + a1, &base, b'#', b'#', 16);
+                        let py = ay.place_fill(64 + a2, &y, b'#', b'#', 16);
+                        check_equal(r, px, py, "plain");
+                    }
+                    let ox = gx.flush_end(l);
+                    let oy = gy.flush_end(l);
+                    let px = gx.place_fill(ox, &base, b'#', b'#', 0);
+                    let py = gy.place_fill(oy, &y, b'#', b'#', 0);
+                    check_equal(r, px, py, "guard-end");
+                }
+            }
+        }
+    });
+    total.merge(rep);
+    bounds.insert("equal-double-difference".into(), json!({"len": [2, maxlen2], "every pair of positions": true, "xor masks": ["(2,2)", "(2,1)", "(80,80)", "(ff,01)"], "all pairs over abc up to": if thorough { 8 } else { 6 }, "all pairs over {00,01,80,ff} up to": if thorough { 6 } else { 5 }}));
     // (3) aliased operands: both slices are views of ONE buffer (sharing a
     // start, an end, overlapping, nested, adjacent, or identical)
     let bufs = AllStrings { letters: b"ab".to_vec(), minlen: 0, maxlen: if thorough { 9 } else { 8 } }.all();
